@@ -76,6 +76,15 @@ def conn_steps(kind: str, cid: int, off: float) -> (str, List[list]):
         return "h1", [["at", 0.2], ["connect"], ["partial"], ["wait_close", 3.5]]
     if kind == "short_h1":
         return "h1", [["at", t_req - 0.02], ["connect"], ["at", t_req], ["get", f"/d/{short_ms}/{cid}"], ["read", 3.0], ["wait_close", 3.5]]
+    if kind == "pipelined_h1":
+        # two requests in one write: the first is in progress at the trigger and finishes inside the grace period, the
+        # second is already waiting in the connection's buffer (never to be served: the connection is not recycled)
+        return "h1", [["at", t_req - 0.02], ["connect"], ["at", t_req], ["pipeline", [f"/d/{short_ms}/{cid}", f"/d/0/{cid}p"]],
+                      ["read", 3.0], ["read", 1.0], ["wait_close", 3.5]]
+    if kind == "late_request_h1":
+        # the next request on a keep-alive connection arrives after the trigger, while the previous one is in progress
+        return "h1", [["at", t_req - 0.02], ["connect"], ["at", t_req], ["get", f"/d/{short_ms}/{cid}"],
+                      ["at", T0 + 0.08], ["get", f"/d/0/{cid}p"], ["read", 3.0], ["read", 1.0], ["wait_close", 3.5]]
     if kind == "long_h1":
         return "h1", [["at", t_req - 0.02], ["connect"], ["at", t_req], ["get", f"/d/{long_ms}/{cid}"], ["read", 3.2], ["wait_close", 3.5]]
     if kind == "hang_h1":
@@ -95,10 +104,13 @@ def conn_steps(kind: str, cid: int, off: float) -> (str, List[list]):
     raise ValueError(kind)
 
 
-KINDS = ["idle_h1", "fresh_h1", "midhead_h1", "short_h1", "long_h1", "hang_h1", "idle_h2", "fresh_h2", "open_h2_short", "open_h2_long", "ws"]
+KINDS = ["idle_h1", "fresh_h1", "midhead_h1", "short_h1", "pipelined_h1", "late_request_h1", "long_h1", "hang_h1", "idle_h2", "fresh_h2",
+         "open_h2_short", "open_h2_long", "ws"]
 IDLE_KINDS = {"idle_h1", "fresh_h1", "midhead_h1", "idle_h2", "fresh_h2"}
-SCOPES_BEFORE = {"idle_h1": 1, "fresh_h1": 0, "midhead_h1": 0, "short_h1": 1, "long_h1": 1, "hang_h1": 1, "idle_h2": 1, "fresh_h2": 0,
-                 "open_h2_short": 2, "open_h2_long": 1, "ws": 1}
+# HTTP/1 connections whose request in progress at the trigger ends inside the grace period: one response, then closed
+IN_GRACE_H1 = {"short_h1", "pipelined_h1", "late_request_h1"}
+SCOPES_BEFORE = {"idle_h1": 1, "fresh_h1": 0, "midhead_h1": 0, "short_h1": 1, "pipelined_h1": 1, "late_request_h1": 1, "long_h1": 1, "hang_h1": 1,
+                 "idle_h2": 1, "fresh_h2": 0, "open_h2_short": 2, "open_h2_long": 1, "ws": 1}
 
 
 def scenario(worker: str, kinds: List[str], source: str = "callable", off: float = 0.1) -> dict:
@@ -131,9 +143,10 @@ def gen(ctx: Ctx) -> List[dict]:
         out.append(scenario(worker, []))
         for k in KINDS:
             out.append(scenario(worker, [k]))
-        for mix in (["idle_h1", "short_h1"], ["short_h1", "open_h2_short", "idle_h2"], ["hang_h1", "idle_h1", "ws"], ["midhead_h1", "short_h1"]):
+        for mix in (["idle_h1", "short_h1"], ["short_h1", "open_h2_short", "idle_h2"], ["hang_h1", "idle_h1", "ws"], ["midhead_h1", "short_h1"],
+                    ["pipelined_h1", "hang_h1"], ["late_request_h1", "pipelined_h1", "idle_h1"]):
             out.append(scenario(worker, mix))
-        for k in ([], ["idle_h1"], ["short_h1"], ["hang_h1"], ["idle_h2", "short_h1"]):
+        for k in ([], ["idle_h1"], ["short_h1"], ["hang_h1"], ["idle_h2", "short_h1"], ["pipelined_h1"]):
             out.append(scenario(worker, k, source="max_requests"))
     if ctx.thorough:
         for worker in ("asyncio", "trio"):
@@ -200,10 +213,21 @@ def monitors(ctx: Ctx, sc: dict, obs: dict, iv: dict) -> None:
             if p["closed_t"] is None or p["closed_t"] > T + IDLE_SLACK:
                 viol("idle_closed", k, {"trigger_at": T, "closed_at": p["closed_t"]})
         # 4. requests that finish within the grace period are delivered in full; the others are cancelled after it
-        if k in ("short_h1", "trigger_request"):
-            ok = any(r["status"] == 200 and r["complete"] for r in p["responses"])
-            if not ok:
+        if k in IN_GRACE_H1 or k == "trigger_request":
+            full = [r for r in p["responses"] if r["status"] == 200 and r["complete"]]
+            if not full:
                 viol("in_grace_delivered", k, {"responses": p["responses"], "trigger_at": T})
+        if k in IN_GRACE_H1:
+            # ... and that was the last request of this connection: nothing that was not in progress at the trigger is
+            # answered (a request pipelined behind it, or sent after the trigger), and the connection - idle from then
+            # on - is closed instead of being kept alive
+            if len(full) > 1 or any(r["status"] is not None for r in p["responses"][1:]):
+                viol("stops_accepting", k, {"responses": p["responses"], "trigger_at": T,
+                                            "requests_sent": [[t, pth] for t, pth in p["sent"]]})
+            if full:
+                idle_from = max(T, full[0]["t"])
+                if p["closed_t"] is None or p["closed_t"] > idle_from + IDLE_SLACK:
+                    viol("idle_closed", k, {"trigger_at": T, "response_complete_at": full[0]["t"], "closed_at": p["closed_t"]})
         if k in ("long_h1", "hang_h1"):
             delivered = any(r["status"] == 200 and r["complete"] for r in p["responses"])
             late_close = p["closed_t"] is None or p["closed_t"] > T + G + SLACK
@@ -277,6 +301,16 @@ def compare(ctx: Ctx, sc: dict, iv: dict, m: dict) -> None:
             i_deliv = sum(1 for r in ip["responses"] if r["status"] == 200 and r["complete"])
             if i_deliv != mp.get("delivered", 0):
                 diffs.append((f"client {cid} ({k}) responses delivered in full", mp.get("delivered", 0), i_deliv))
+            # application instances started for the requests of this connection
+            mine = {pth for _, pth in ip["sent"]}
+            i_scopes = sum(1 for _, d in iv["scopes"] if d.get("path") in mine)
+            if i_scopes != mp["scopes"]:
+                diffs.append((f"client {cid} ({k}) application instances started", mp["scopes"], i_scopes))
+            # not recycled after the response (`_maybe_recycle` once terminated): closed at that instant
+            if mp.get("closed_after_delivery_t") is not None:
+                want = mp["closed_after_delivery_t"] * wk.TICK
+                if ip["closed_t"] is None or abs(ip["closed_t"] - want) > 0.5:
+                    diffs.append((f"client {cid} ({k}) closed after its response at", want, ip["closed_t"]))
         if c["kind"] == "h2":
             # streams whose whole body arrived (END_STREAM itself is the monitor's business: projection discipline)
             got: Dict[int, int] = {}
